@@ -11,6 +11,16 @@ NOTE_COMMON = ("Theorems are about a hand-written Lean model; the model is tied 
                "float rounding measured not proved. Axioms: propext, Classical.choice, Quot.sound only.")
 
 CLAIMS = {
+ "C06": dict(
+   text="Proof (Lean 4) about the model of pinch_idx/pinch_temperatures, for residual columns of any length: when the column has a "
+        "zero and a non-zero row a pinch is reported, both rows are zero rows, hot row <= cold row (so T_hot >= T_cold on a descending "
+        "table), every zero outside the zero runs touching the ends lies between them, and the threshold clauses hold "
+        "(pinch_rows_spec, zeros_between_pinches, hot_not_colder_than_cold); absent_iff characterises exactly when a pinch is "
+        "reported absent, and pinch_allzero_witness proves the full 'absent only when no zero' statement false of the code "
+        "(known finding C06-all-zero, pinned by a test). Correspondence on 3000+ random columns per run; the service-level oracle "
+        "compares the reported pinch of every zone of 280+ random problems with the zeros of an exact Fraction cascade.",
+   technique="Lean 4 proof of the decision logic over lists + correspondence testing + exact-cascade oracle on service output",
+   design="§6 C06"),
  "C19": dict(
    text="Proof (Lean 4): for every finite sequence of setter calls on a constructed stream no exception is raised and CP*span = duty, "
         "t_min < t_max, shifted bounds = real bounds moved by dt_cont in the direction of the kind (which follows the current "
